@@ -73,6 +73,17 @@ fn vk_is_interesting_rule() {
     assert!(m.is_interesting() == (named && (m.offset == 0 || exec) && m.size >= 4096));
 }
 
+/// pins the stand-in of MMPermissions used by the Verus units (verus/prelude/linux_types.rs, units/maps_filter.rs.in):
+/// READ=1 WRITE=2 EXECUTE=4 and `contains` is the mask test, for every 8-bit value
+#[kani::proof]
+fn vk_mmpermission_bits() {
+    assert!(MMPermissions::READ.bits() == 1 && MMPermissions::WRITE.bits() == 2 && MMPermissions::EXECUTE.bits() == 4);
+    assert!(MMPermissions::SHARED.bits() == 8 && MMPermissions::PRIVATE.bits() == 16);
+    let p = MMPermissions::from_bits_retain(kani::any());
+    let q = MMPermissions::from_bits_retain(kani::any());
+    assert!(p.contains(q) == (p.bits() & q.bits() == q.bits()));
+}
+
 #[kani::proof]
 fn vk_contains_address_rule() {
     let m = any_mapping(None);
